@@ -1,7 +1,63 @@
 //go:build verif
 
-// Contracts for package cbor, checked by /verif (govc). Comment-only.
+// Contracts and ghost lemma functions for package cbor, checked by /verif (govc).
 package cbor
+
+import (
+	"berty.tech/go-ipfs-log/iface"
+	"berty.tech/go-ipfs-log/io/jsonable"
+)
+
+// C18: with a link key the stored form of an entry carries no clear predecessor / reference, and a reader with the
+// same key recovers exactly the lists the writer sealed. The lemma functions compose the real PreSign, ToJsonableEntry
+// and DecryptLinks.
+
+//@ func verifLemmaStoredFormHidesLinks
+//@   lemma
+//@   requires validIO(w) && validEntry(e) && e.(*entry.Entry).V >= 2 && (e.(*entry.Entry).Identity == nil || e.(*entry.Entry).Identity.Signatures != nil)
+//@   requires w.linkKey != nil && (len(e.(*entry.Entry).Next) > 0 || len(e.(*entry.Entry).Refs) > 0)
+//@   ensures [stored-form-has-no-clear-links] result != nil ==> len(result.Next) == 0 && len(result.Refs) == 0 && len(result.EncryptedLinks) >= 0
+func verifLemmaStoredFormHidesLinks(w *IOCbor, e iface.IPFSLogEntry) *jsonable.EntryV2 {
+	x, err := w.PreSign(e)
+	if err != nil {
+		return nil
+	}
+
+	return jsonable.ToJsonableEntry(x).(*jsonable.EntryV2)
+}
+
+//@ func verifLemmaLinksRoundTrip
+//@   lemma
+//@   requires validIO(w) && validIO(r) && validEntry(e) && e.(*entry.Entry).V >= 2 && (e.(*entry.Entry).Identity == nil || e.(*entry.Entry).Identity.Signatures != nil)
+//@   requires w.linkKey != nil && r.linkKey == w.linkKey && (len(e.(*entry.Entry).Next) > 0 || len(e.(*entry.Entry).Refs) > 0)
+//@   requires distinctCids(e.(*entry.Entry).Next) && distinctCids(e.(*entry.Entry).Refs)
+//@   ensures [same-key-reader-recovers-identical-links] result1 == nil ==> result0 != nil && sameCids(result0.Next, e.(*entry.Entry).Next) && sameCids(result0.Refs, e.(*entry.Entry).Refs)
+func verifLemmaLinksRoundTrip(w, r *IOCbor, e iface.IPFSLogEntry) (*jsonable.EntryV2, error) {
+	x, err := w.PreSign(e)
+	if err != nil {
+		return nil, err
+	}
+
+	j := jsonable.ToJsonableEntry(x).(*jsonable.EntryV2)
+
+	return r.DecryptLinks(j)
+}
+
+//@ func verifLemmaNoKeyNoLinks
+//@   lemma
+//@   requires validIO(w) && validIO(r) && validEntry(e) && e.(*entry.Entry).V >= 2 && (e.(*entry.Entry).Identity == nil || e.(*entry.Entry).Identity.Signatures != nil)
+//@   requires w.linkKey != nil && r.linkKey == nil && (len(e.(*entry.Entry).Next) > 0 || len(e.(*entry.Entry).Refs) > 0)
+//@   ensures [reader-without-key-obtains-no-links] result0 != nil ==> len(result0.Next) == 0 && len(result0.Refs) == 0
+func verifLemmaNoKeyNoLinks(w, r *IOCbor, e iface.IPFSLogEntry) (*jsonable.EntryV2, error) {
+	x, err := w.PreSign(e)
+	if err != nil {
+		return nil, err
+	}
+
+	j := jsonable.ToJsonableEntry(x).(*jsonable.EntryV2)
+
+	return r.DecryptLinks(j)
+}
 
 //@ define validIO(i *IOCbor) = i != nil && i.refEntry != nil && i.refClock != nil && (i.linkKey == nil || ref(i.linkKey) != nil) && i.constantIdentity == nil
 
@@ -13,6 +69,9 @@ package cbor
 //@   requires i != nil && entry != nil && (i.linkKey == nil || ref(i.linkKey) != nil)
 //@   modifies entry.Next, entry.Refs
 //@   ensures err == nil ==> result0 == entry
+//@   ensures [without-key-or-ciphertext-nothing-is-recovered] i.linkKey == nil || len(entry.EncryptedLinks) == 0 || len(entry.EncryptedLinksNonce) == 0 ==> err == nil && entry.Next == old(entry.Next) && entry.Refs == old(entry.Refs)
+//@   ensures [links-come-only-from-an-accepted-ciphertext] err == nil && i.linkKey != nil && len(entry.EncryptedLinks) > 0 && len(entry.EncryptedLinksNonce) > 0 ==> openOK(ref(i.linkKey), b64dec(entry.EncryptedLinks), b64dec(entry.EncryptedLinksNonce))
+//@   ensures [same-key-recovers-the-sealed-links] forall n []cid.Cid, r []cid.Cid, nonce bytes :: i.linkKey != nil && len(nonce) == 24 && entry.EncryptedLinks == b64enc(sealOf(ref(i.linkKey), mlinks(cidsOf(n), cidsOf(r)), nonce)) && entry.EncryptedLinksNonce == b64enc(nonce) && len(entry.EncryptedLinks) > 0 && len(entry.EncryptedLinksNonce) > 0 ==> err == nil && sameCids(entry.Next, n) && sameCids(entry.Refs, r)
 
 //@ func (*IOCbor).DecodeRawEntry
 //@   requires validIO(i) && node != nil
@@ -20,23 +79,29 @@ package cbor
 //@   ensures [decoded-entry-carries-the-requested-hash] err == nil ==> result0.Hash == hash
 
 
+// The bytes NonceRefForEntry formats with fmt.Sprintf are summarised as a function of exactly the values it passes
+// to Sprintf (assumed summary of the formatting call; the argument list is the code's).
 //@ func NonceRefForEntry
 //@   requires validEntry(entry)
 //@   ensures fresh(result)
+//@   assumes [nonce-reference-is-a-function-of-the-formatted-values] bytes(result) == nonceRef(cidsOf(entry.(*entry.Entry).Next), bytes(entry.(*entry.Entry).Key), bytes(entry.(*entry.Entry).Payload), bytes(entry.(*entry.Entry).Clock.ID), entry.(*entry.Entry).Clock.Time, entry.(*entry.Entry).LogID, entry.(*entry.Entry).V)
 
 //@ func (*IOCbor).PreSign
 //@   requires validIO(i) && validEntry(entry)
 //@   ensures [presign-returns-a-usable-entry] err == nil ==> validEntry(result0)
 //@   ensures [presign-does-not-touch-its-argument] err == nil ==> result0 == entry || fresh(result0)
 //@   ensures [presign-keeps-signed-fields] err == nil ==> sameEntryCore(result0, entry)
+//@   ensures [no-key-or-no-links-means-no-change] i.linkKey == nil || (len(entry.Next) == 0 && len(entry.Refs) == 0) ==> err == nil && result0 == entry
+//@   ensures [links-are-sealed-under-the-link-key] err == nil && i.linkKey != nil && (len(entry.Next) > 0 || len(entry.Refs) > 0) ==> hasEncLinks(result0) && (exists nonce bytes :: len(nonce) == 24 && nonce == nonceOf(nonceRef(cidsOf(result0.Next), bytes(result0.Key), bytes(result0.Payload), bytes(result0.Clock.ID), result0.Clock.Time, result0.LogID, result0.V)) && result0.AdditionalData["encrypted_links"] == b64enc(sealOf(ref(i.linkKey), mlinks(cidsOf(result0.Next), cidsOf(result0.Refs)), nonce)) && result0.AdditionalData["encrypted_links_nonce"] == b64enc(nonce))
 
 //@ func (*IOCbor).Write
 //@   requires i != nil && ipfs != nil && i.constantIdentity == nil
 //@   requires typeis(obj, "*entry.Entry") ==> validEntry(obj.(iface.IPFSLogEntry)) && (obj.(*entry.Entry).Identity == nil || obj.(*entry.Entry).Identity.Signatures != nil)
 //@   requires [links-are-stored-before-the-block-is-written] typeis(obj, "*entry.Entry") ==> linksStored(obj.(iface.IPFSLogEntry))
 //@   requires [manifest-heads-are-stored] typeis(obj, "*iface.JSONLog") ==> forall i int :: 0 <= i && i < len(obj.(*iface.JSONLog).Heads) ==> stored[obj.(*iface.JSONLog).Heads[i]]
-//@   modifies stored, lastAdded, addCount
+//@   modifies stored, lastAdded, addCount, lastWrapped
 //@   ensures [write-reports-failure] err != nil ==> result0 == cidUndef
+//@   ensures [clear-links-never-reach-the-encoder] err == nil && typeis(obj, "*entry.Entry") && hasEncLinks(obj.(iface.IPFSLogEntry)) && obj.(*entry.Entry).V >= 2 ==> typeis(lastWrapped, "*jsonable.Entry") && len(lastWrapped.(*jsonable.Entry).Next) == 0 && len(lastWrapped.(*jsonable.Entry).Refs) == 0
 //@   ensures [written-block-is-stored] err == nil ==> stored[result0] && result0 == lastAdded && addCount == old(addCount) + 1
 //@   ensures [store-only-grows] forall c cid :: old(stored[c]) ==> stored[c]
 
@@ -45,3 +110,29 @@ package cbor
 //@ func IO
 //@   trusted
 //@   ensures err == nil ==> result0 != nil && validIO(result0)
+
+// C06/C18: the bytes that are signed when an entry is created must be the bytes recomputed when it is verified.
+// Key, signature, identity and hash are set AFTER signing, so PreSign (whose additional data is part of the signed
+// bytes) must not depend on them: two entries that agree on every signed field get the same encrypted-link fields.
+//@ func verifLemmaPreSignIgnoresUnsignedFields
+//@   lemma
+//@   requires validIO(i) && validEntry(a) && validEntry(b) && a.(*entry.Entry).V >= 2 && ref(a) != ref(b)
+//@   requires distinctCids(a.(*entry.Entry).Next) && distinctCids(a.(*entry.Entry).Refs) && distinctCids(b.(*entry.Entry).Next) && distinctCids(b.(*entry.Entry).Refs)
+//@   requires [same-signed-fields] cidsOf(a.(*entry.Entry).Next) == cidsOf(b.(*entry.Entry).Next) && cidsOf(a.(*entry.Entry).Refs) == cidsOf(b.(*entry.Entry).Refs) && len(a.(*entry.Entry).Next) == len(b.(*entry.Entry).Next) && len(a.(*entry.Entry).Refs) == len(b.(*entry.Entry).Refs) && bytes(a.(*entry.Entry).Payload) == bytes(b.(*entry.Entry).Payload) && a.(*entry.Entry).LogID == b.(*entry.Entry).LogID && a.(*entry.Entry).V == b.(*entry.Entry).V && a.(*entry.Entry).Clock.Time == b.(*entry.Entry).Clock.Time && bytes(a.(*entry.Entry).Clock.ID) == bytes(b.(*entry.Entry).Clock.ID)
+//@   requires i.linkKey != nil && (len(a.(*entry.Entry).Next) > 0 || len(a.(*entry.Entry).Refs) > 0)
+//@   ensures [presign-ignores-key-signature-identity-and-hash] result0 != nil && result1 != nil ==> result0.(*entry.Entry).AdditionalData["encrypted_links"] == result1.(*entry.Entry).AdditionalData["encrypted_links"] && result0.(*entry.Entry).AdditionalData["encrypted_links_nonce"] == result1.(*entry.Entry).AdditionalData["encrypted_links_nonce"]
+//@   observe a.(*entry.Entry).Key, b.(*entry.Entry).Key
+//@   replay linkkeyverify
+func verifLemmaPreSignIgnoresUnsignedFields(i *IOCbor, a, b iface.IPFSLogEntry) (iface.IPFSLogEntry, iface.IPFSLogEntry) {
+	x, err := i.PreSign(a)
+	if err != nil {
+		return nil, nil
+	}
+
+	y, err := i.PreSign(b)
+	if err != nil {
+		return nil, nil
+	}
+
+	return x, y
+}
